@@ -214,6 +214,26 @@ Theorem C03_contract_rename_dir_replacing : forall C full w k r p q w' ep v,
 Proof. exact contract_rename_dir_over. Qed.
 Print Assumptions C03_contract_rename_dir_replacing.
 
+(* The other case of a directory replacing an empty directory: the replaced directory has no watch of its own (non-recursive
+   watch, or the target lies outside the scope) - the kernel reports nothing about it and the operation meets the contract
+   of a rename onto a free name; local [cover] hypotheses as for C03_contract_rename_dir_tree. *)
+Theorem C03_contract_rename_dir_replacing_unwatched : forall C full w k r, k_queue k = [] -> pend r = None ->
+  forall dp np dq nq w',
+  dp <> [] -> last_is_sep dp = false -> valid_name np = true ->
+  dq <> [] -> last_is_sep dq = false -> valid_name nq = true ->
+  cover C r k (w_fs w) dp -> cover C r k (w_fs w) dq ->
+  fisdir (dp ++ sep :: np) (w_fs w) = true -> fisdir (dq ++ sep :: nq) (w_fs w) = true ->
+  watch_of_ino k (ino_of (w_fs w) (dq ++ sep :: nq)) = None ->
+  (c_recursive C = false \/ in_scope (c_recursive C) (c_root C) (dq ++ sep :: nq) = false) ->
+  content (w_fs w') (dq ++ sep :: nq) = content (w_fs w) (dp ++ sep :: np) ->
+  wf_tree (content (w_fs w) (dp ++ sep :: np)) = true ->
+  apply_op w (Rename (dp ++ sep :: np) (dq ++ sep :: nq)) = Some w' ->
+  exists evs, deliver_one C full w k r (Rename (dp ++ sep :: np) (dq ++ sep :: nq)) = Some evs /\
+    collapse evs = collapse (contract (c_recursive C) full (c_root C) (w_fs w)
+                                      (Rename (dp ++ sep :: np) (dq ++ sep :: nq))).
+Proof. exact contract_rename_dir_over_unwatched. Qed.
+Print Assumptions C03_contract_rename_dir_replacing_unwatched.
+
 (* ================================================================== history-level soundness *)
 (* Every event queued along any history of the pipeline model is justified by an operation executed before it. *)
 Definition C03_sound_full : Prop :=
@@ -507,3 +527,20 @@ Example C03_contract_rename_dir_replacing_nonvacuous :
     exists s0 s obs, pinit (Px true) rp_world = Some s0 /\
       prun (Px true) s0 (tie_history (Px true) s0 (Rename rp_d rp_e) 4) [] = Done (s, obs) /\ p_out s = rp_events.
 Proof. exact replace_nonvacuous. Qed.
+
+(* C03_contract_rename_dir_replacing_unwatched: /R/d moved over the empty directory /O/z2 outside the scope (recursive watch) *)
+Example C03_contract_rename_dir_replacing_unwatched_nonvacuous :
+  let t := ex_fs ++ [{| f_path := ex_sl ex_O 119; f_ino := 30; f_dir := true |}] in
+  let w := {| w_fs := t; w_next_ino := 40 |} in
+  let q := ex_sl ex_O 119 in
+  fisdir q t = true /\ watch_of_ino (ex_k true) (ino_of t q) = None /\ in_scope true ex_R q = false /\
+  Forall (cover (ex_C true) (ex_r true) (ex_k true) t) [ex_R; ex_O] /\
+  (exists w', apply_op w (Rename ex_Rd q) = Some w' /\ content (w_fs w') q = content t ex_Rd) /\
+  deliver_one (ex_C true) false w (ex_k true) (ex_r true) (Rename ex_Rd q)
+    = Some [mk DirDeleted ex_Rd []; parent_modified ex_Rd] /\
+  contract true false ex_R t (Rename ex_Rd q) = [mk DirDeleted ex_Rd []; parent_modified ex_Rd].
+Proof.
+  vm_compute. repeat split.
+  - repeat constructor; eexists; repeat split.
+  - eexists. split; reflexivity.
+Qed.
